@@ -2,44 +2,56 @@
   nfdriver — runs the executable model on the same operations as the Rust harness and compares.
   stdin : one JSON object per line  {"i":n,"op":{...},"impl":{...}}   (merged by check.py)
   stdout: one verdict per line      {"i":n,"corr":bool,"diff":[...],"oracle":{...},...}
+  `nfdriver encode`: fills "hex" of ops that carry abstract messages, using the spec writer.
 -/
 import NetflowModel.Wire
 import NetflowModel.Generated
 import NetflowModel.Oracle
+import NetflowModel.Findings
 open Lean Netflow
+
+/-- one `parse_bytes` call as observed on the real crate and on the model -/
+structure Call where
+  buf : Bytes
+  impl : ParseAns
+  model : ParseAns
+  implBefore : PState
 
 structure Sess where
   allowed : List (Nat × List Nat) := []
-  sts : List (Nat × PState) := []
+  sts : List (Nat × PState) := []                  -- model state per parser
+  implSts : List (Nat × PState) := []              -- last state reported by the real crate per parser
+  calls : List (Nat × List Call) := []             -- per parser, most recent first
+  defs : List (Nat × Option Spec.Defs) := []       -- exporter-side template memory per parser; none = unknown
+  flats : List (Nat × (List CommonFlow × List CommonFlow)) := []   -- (impl, model) results of `flat` ops
+  sticky : List (Nat × List String) := []          -- history-level finding classes per parser (state-polluting)
   unknownFields : Bool := true
-  dead : Bool := false           -- the harness crashed earlier in this scenario
+  dead : Bool := false                             -- the harness crashed earlier in this scenario
+
+def allVersions : List Nat := List.range 65536
 
 def Sess.cfg (s : Sess) (p : Nat) : Config :=
   { t := Generated.tables, allowed := (s.allowed.lookup p).getD Generated.defaultAllowed, unknownFields := s.unknownFields }
 
+def upd {β : Type} (l : List (Nat × β)) (p : Nat) (v : β) : List (Nat × β) := (p, v) :: l.filter (·.1 != p)
+
 def Sess.st (s : Sess) (p : Nat) : PState := (s.sts.lookup p).getD {}
-
-def Sess.setSt (s : Sess) (p : Nat) (st : PState) : Sess :=
-  { s with sts := (p, st) :: s.sts.filter (·.1 != p) }
-
-def Sess.setAllowed (s : Sess) (p : Nat) (a : List Nat) : Sess :=
-  { s with allowed := (p, a) :: s.allowed.filter (·.1 != p) }
+def Sess.implSt (s : Sess) (p : Nat) : PState := (s.implSts.lookup p).getD {}
+def Sess.callsOf (s : Sess) (p : Nat) : List Call := ((s.calls.lookup p).getD []).reverse
 
 def getNatD (j : Json) (k : String) (d : Nat) : Nat :=
   match j.getObjValAs? Nat k with | .ok n => n | .error _ => d
-
 def getStrD (j : Json) (k : String) (d : String) : String :=
   match j.getObjValAs? String k with | .ok n => n | .error _ => d
-
+def getBoolD (j : Json) (k : String) (d : Bool) : Bool :=
+  match j.getObjValAs? Bool k with | .ok n => n | .error _ => d
 def getNatList (j : Json) (k : String) : Option (List Nat) :=
   match j.getObjValAs? (List Nat) k with | .ok n => some n | .error _ => none
-
 def wants (op : Json) (w : String) : Bool :=
   match op.getObjValAs? (List String) "want" with | .ok l => l.contains w | .error _ => false
 
 def outcomeStr : Outcome → String
   | .done _ => "done" | .panic _ => "panic" | .overflow _ => "overflow"
-
 def outcomePkts : Outcome → List Packet
   | .done ps => ps | .panic _ => [] | .overflow _ => []
 
@@ -70,7 +82,15 @@ def pktTag : Packet → String
   | .error (.partialParse v _) _ => s!"err.partial{v}"
   | .error (.unknownVersion _) _ => "err.unknown"
 
+def setTags : Packet → List String
+  | .v9 _ ss => ss.map fun s => match s.body with
+    | .templates .. => "v9.templates" | .optTemplates .. => "v9.optTemplates" | .data .. => "v9.data" | .optData .. => "v9.optData"
+  | .ipfix _ ss => ss.map fun s => match s.body with
+    | .template .. => "ip.template" | .optTemplate .. => "ip.optTemplate" | .data .. => "ip.data" | .optData .. => "ip.optData"
+  | _ => []
+
 def jsonOfList (l : List String) : Json := Json.arr (l.map Json.str).toArray
+def jsonOfOracle (l : List (String × Bool)) : Json := Json.mkObj (l.map fun (k, v) => (k, Json.bool v))
 
 def handleParse (s : Sess) (i : Nat) (op impl : Json) : Sess × Json :=
   let p := getNatD op "p" 0
@@ -79,11 +99,27 @@ def handleParse (s : Sess) (i : Nat) (op impl : Json) : Sess × Json :=
   match unhex (getStrD op "hex" "") with
   | none => (s, Json.mkObj [("i", i), ("bad", "hex")])
   | some buf =>
-    let (m, st') := modelParse c st buf (wants op "export") (wants op "common")
-    let s' := s.setSt p st'
+    let wE := wants op "export"
+    let wC := wants op "common"
+    let (m, st') := modelParse c st buf wE wC
+    let s' := { s with sts := upd s.sts p st' }
+    -- exporter-side template memory (only for unmutated calls that carry abstract messages)
+    let (sv, defs') : Option Preds.SpecView × Option Spec.Defs :=
+      match (if [5, 7, 9, 10].all c.allowed.contains then (s.defs.lookup p).getD (some {}) else none) with
+      | none => (none, (s.defs.lookup p).getD (some {}))
+      | some d =>
+        match op.getObjVal? "msgs" with
+        | .error _ => (none, none)                    -- raw bytes: the memory becomes unknown
+        | .ok ms =>
+          match (fromJson? ms : Except String (List Spec.Msg)) with
+          | .error _ => (none, none)
+          | .ok msgs =>
+            match Spec.expMsgs c Preds.names d msgs with
+            | some (d', pkts) => (some { conformant := true, pkts := pkts, defs := d' }, some d')
+            | none => (some { conformant := false, pkts := [], defs := d }, none)
+    let s' := { s' with defs := upd s'.defs p defs' }
     let implOutcome := getStrD impl "outcome" "missing"
     if implOutcome == "abort" || implOutcome == "timeout" || implOutcome == "missing" then
-      -- the real code did not return: nothing to compare structurally
       ({ s' with dead := true },
         Json.mkObj [("i", i), ("kind", "parse"), ("corr", m.outcome == "overflow"), ("diff", jsonOfList ["outcome"]),
           ("model_outcome", m.outcome), ("impl_outcome", implOutcome), ("returned", false),
@@ -96,16 +132,131 @@ def handleParse (s : Sess) (i : Nat) (op impl : Json) : Sess × Json :=
           ("oracle", Json.mkObj []), ("len", buf.length)])
       | .ok a =>
         let d := diffParts a m
-        let orc := Preds.parseOracles c st buf a
+        let before := s.implSt p
+        let orc := Preds.parseOracles c before buf a sv wE wC
+        let morc := Preds.parseOracles c st buf m sv wE wC
+        let c07 (x : ParseAns) : List (String × Bool) :=
+          match op.getObjValAs? Nat "unknown_id", op.getObjValAs? Nat "unknown_proto" with
+          | .ok tid, .ok proto => [("C07", Preds.noRecordsFor tid proto x.pkts)]
+          | _, _ => []
+        let orc := orc ++ c07 a
+        let morc := morc ++ c07 m
+        let classes0 := Findings.outputClasses c a.pkts ++ (match sv, (s.defs.lookup p).getD (some {}) with
+            | some v, some d0 => (match (fromJson? ((op.getObjVal? "msgs").toOption.getD Json.null) : Except String (List Spec.Msg)) with
+              | .ok msgs => Findings.inputClasses c d0 msgs ++ Findings.inputClasses c v.defs msgs
+              | .error _ => [])
+            | _, _ => [])
+        let stickyNow := ((s.sticky.lookup p).getD []) ++ classes0.filter (fun x => x == "ipfix-multi-template-set")
+        let classes := (classes0 ++ stickyNow).eraseDups
+        let call : Call := { buf := buf, impl := a, model := m, implBefore := before }
+        let s' := { s' with sticky := upd s'.sticky p stickyNow.eraseDups, implSts := upd s'.implSts p a.state, calls := upd s'.calls p (call :: (s'.calls.lookup p).getD []) }
         (s', Json.mkObj [("i", i), ("kind", "parse"), ("corr", d.isEmpty), ("diff", jsonOfList d),
           ("model_outcome", m.outcome), ("impl_outcome", implOutcome), ("returned", true),
-          ("oracle", Json.mkObj (orc.map fun (k, v) => (k, Json.bool v))),
-          ("classes", jsonOfList (Preds.parseClasses c st buf a)),
-          ("tags", jsonOfList (a.pkts.map pktTag)),
+          ("oracle", jsonOfOracle orc), ("model_oracle", jsonOfOracle morc),
+          ("conformant", match sv with | some v => Json.bool v.conformant | none => Json.null),
+          ("state_changed", a.state != before),
+          ("tags", jsonOfList (a.pkts.map pktTag ++ a.pkts.flatMap setTags)),
           ("nontrivial", a.pkts.any pktNontrivial),
           ("digest", (hash (toString (toJson a.pkts) ++ toString (toJson a.state))).toNat),
           ("model", if d.isEmpty || buf.length > 4096 then Json.null else toJson m),
+          ("expected", match sv with
+            | some v => if v.conformant && buf.length ≤ 4096 then toJson (v.pkts.map fun e => match e with | .pkt p => toJson p | .inexpressible _ => Json.str "inexpressible") else Json.null
+            | none => Json.null),
+          ("impl_pkts", match sv with
+            | some v => if v.conformant && buf.length ≤ 4096 then toJson a.pkts else Json.null
+            | none => Json.null),
+          ("classes", jsonOfList classes),
           ("len", buf.length)])
+
+def allPkts (cs : List Call) (f : Call → ParseAns) : List Packet := cs.flatMap fun c => (f c).pkts
+def lastState (cs : List Call) (f : Call → ParseAns) : PState :=
+  match cs.getLast? with | some c => (f c).state | none => {}
+
+/-- scenario-level (relational) oracles: each is evaluated on the real crate's answers and,
+    separately, on the model's answers -/
+def handleAssert (s : Sess) (i : Nat) (op : Json) : Json :=
+  let kind := getStrD op "op" ""
+  let a := getNatD op "a" 0
+  let b := getNatD op "b" 1
+  let ca := s.callsOf a
+  let cb := s.callsOf b
+  let mk (key : String) (implOk modelOk : Bool) : Json :=
+    Json.mkObj [("i", i), ("kind", "assert"), ("assert", kind), ("corr", true), ("diff", jsonOfList []),
+      ("oracle", Json.mkObj [(key, Json.bool implOk)]), ("model_oracle", Json.mkObj [(key, Json.bool modelOk)]),
+      ("returned", true), ("nontrivial", !ca.isEmpty), ("digest", Json.null)]
+  match kind with
+  | "assert_chain" =>
+    -- C11: joined delivery on `a` = per-packet delivery on `b`
+    let f (sel : Call → ParseAns) := allPkts ca sel == allPkts cb sel && lastState ca sel == lastState cb sel
+    mk "C11" (f (·.impl)) (f (·.model))
+  | "assert_same" =>
+    let key := getStrD op "key" "C06"
+    let f (sel : Call → ParseAns) := ca.map (fun c => (sel c).pkts) == cb.map (fun c => (sel c).pkts) && lastState ca sel == lastState cb sel
+    mk key (f (·.impl)) (f (·.model))
+  | "assert_filter" =>
+    -- C12: a = allowed set S, b = every version allowed, same buffer; optional c = all-allowed parser fed the allowed prefix only
+    let S := (s.allowed.lookup a).getD Generated.defaultAllowed
+    let cfgAll := s.cfg b
+    let f (sel : Call → ParseAns) : Bool :=
+      match ca.getLast?, cb.getLast? with
+      | some x, some y =>
+        let pre := Preds.takeAllowed cfgAll S (x.buf.length + 1) x.buf (sel y).pkts
+        (sel x).pkts == pre &&
+        (match op.getObjValAs? Nat "c" with
+         | .ok cpar =>
+           (match (s.callsOf cpar).getLast? with
+            | some z => (sel x).state == (sel z).state && (sel x).pkts == (sel z).pkts
+            | none => false)
+         | .error _ => true)
+      | _, _ => false
+    mk "C12" (f (·.impl)) (f (·.model))
+  | "assert_trunc" =>
+    -- C14: a parsed  pre ++ cut ; b parsed pre alone (same history).  `cutlen` = |cut|
+    let k := getNatD op "cutlen" 0
+    let keep := getBoolD op "keep_state" true
+    let f (sel : Call → ParseAns) : Bool :=
+      match ca.getLast?, cb.getLast? with
+      | some x, some y =>
+        let cut := x.buf.drop (x.buf.length - k)
+        (match (sel x).pkts.getLast? with
+         | some (.error _ rem) => rem == cut && (sel x).pkts.dropLast == (sel y).pkts
+         | _ => false) &&
+        (!keep || (sel x).state == (sel y).state)
+      | _, _ => false
+    mk "C14" (f (·.impl)) (f (·.model))
+  | "assert_unchanged" =>
+    -- the last call on `a` left the caches as they were
+    let key := getStrD op "key" "C06"
+    let f (sel : Call → ParseAns) (before : Call → PState) : Bool :=
+      match ca.getLast? with
+      | some x => (sel x).state == before x
+      | none => false
+    let modelBefore : PState := match ca.dropLast.getLast? with | some c => c.model.state | none => {}
+    mk key (f (·.impl) (·.implBefore)) (f (·.model) (fun _ => modelBefore))
+  | "assert_flat" =>
+    -- C13: flat(b) = concatenation of the common flows of the non-error packets parsed on a
+    let (fi, fm) := (s.flats.lookup b).getD ([], [])
+    let cat (sel : Call → ParseAns) : List CommonFlow :=
+      ca.flatMap fun c => (sel c).common.flatMap fun o => match o with | some cm => cm.flows | none => []
+    mk "C13" (fi == cat (·.impl)) (fm == cat (·.model))
+  | _ => Json.mkObj [("i", i), ("kind", "unknown-op"), ("op", kind)]
+
+def handleFlat (s : Sess) (i : Nat) (op impl : Json) : Sess × Json :=
+  let p := getNatD op "p" 0
+  let c := s.cfg p
+  match unhex (getStrD op "hex" "") with
+  | none => (s, Json.mkObj [("i", i), ("bad", "hex")])
+  | some buf =>
+    let (st', out) := parseBytes c (s.st p) buf
+    let mflat := commonFlat c (outcomePkts out)
+    let s' := { s with sts := upd s.sts p st' }
+    match impl.getObjValAs? (List CommonFlow) "flat" with
+    | .error e => (s', Json.mkObj [("i", i), ("kind", "flat"), ("corr", false), ("diff", jsonOfList ["undecodable"]), ("decode_error", e), ("oracle", Json.mkObj [])])
+    | .ok fl =>
+      let (pi, pm) := (s.flats.lookup p).getD ([], [])
+      ({ s' with flats := upd s'.flats p (pi ++ fl, pm ++ mflat) },
+        Json.mkObj [("i", i), ("kind", "flat"), ("corr", fl == mflat), ("diff", jsonOfList (if fl == mflat then [] else ["common"])),
+          ("oracle", Json.mkObj []), ("returned", true)])
 
 def handle (s : Sess) (line : Json) : Sess × Json :=
   let i := getNatD line "i" 0
@@ -114,17 +265,25 @@ def handle (s : Sess) (line : Json) : Sess × Json :=
   match getStrD op "op" "" with
   | "scenario" => ({ unknownFields := s.unknownFields }, Json.mkObj [("i", i), ("kind", "scenario")])
   | "config" =>
-    ({ s with unknownFields := (op.getObjValAs? Bool "unknownFields").toOption.getD true }, Json.mkObj [("i", i), ("kind", "config")])
+    ({ s with unknownFields := getBoolD op "unknownFields" true }, Json.mkObj [("i", i), ("kind", "config")])
   | "new" =>
     let p := getNatD op "p" 0
-    let s := s.setSt p {}
-    let s := match getNatList op "allowed" with | some a => s.setAllowed p a | none => s.setAllowed p Generated.defaultAllowed
-    (s, Json.mkObj [("i", i), ("kind", "new")])
+    let a := match op.getObjVal? "allowed" with
+      | .ok (.str "all") => allVersions
+      | _ => (getNatList op "allowed").getD Generated.defaultAllowed
+    ({ s with sts := upd s.sts p {}, implSts := upd s.implSts p {}, calls := upd s.calls p [], defs := upd s.defs p (some {}),
+              allowed := upd s.allowed p a, flats := upd s.flats p ([], []) },
+      Json.mkObj [("i", i), ("kind", "new")])
   | "allowed" =>
-    (s.setAllowed (getNatD op "p" 0) ((getNatList op "set").getD []), Json.mkObj [("i", i), ("kind", "allowed")])
+    ({ s with allowed := upd s.allowed (getNatD op "p" 0) ((getNatList op "set").getD []) }, Json.mkObj [("i", i), ("kind", "allowed")])
   | "parse" =>
     if s.dead then (s, Json.mkObj [("i", i), ("kind", "skipped")]) else handleParse s i op impl
-  | other => (s, Json.mkObj [("i", i), ("kind", "unknown-op"), ("op", other)])
+  | "flat" =>
+    if s.dead then (s, Json.mkObj [("i", i), ("kind", "skipped")]) else handleFlat s i op impl
+  | other =>
+    if other.startsWith "assert_" then
+      if s.dead then (s, Json.mkObj [("i", i), ("kind", "skipped")]) else (s, handleAssert s i op)
+    else (s, Json.mkObj [("i", i), ("kind", "unknown-op"), ("op", other)])
 
 partial def loop (h : IO.FS.Stream) (out : IO.FS.Stream) (s : Sess) : IO Unit := do
   let line ← h.getLine
@@ -140,26 +299,56 @@ partial def loop (h : IO.FS.Stream) (out : IO.FS.Stream) (s : Sess) : IO Unit :=
     out.flush
     loop h out s'
 
+/-- byte offsets inside the encoded message at which a flowset/set (or the header) ends -/
+def setBoundaries : Spec.Msg → List Nat
+  | .v9 m => (m.sets.foldl (fun (acc : List Nat × Nat) s => let n := acc.2 + (Spec.encV9FS s).length; (n :: acc.1, n)) ([20], 20)).1
+  | _ => []
+
 /-- `encode` mode: fill in `"hex"` of every op that carries abstract messages (`"msgs"`) using the
     specification's writer `Spec.enc`; everything else is passed through. -/
-partial def encodeLoop (h : IO.FS.Stream) (out : IO.FS.Stream) : IO Unit := do
+partial def encodeLoop (h : IO.FS.Stream) (out : IO.FS.Stream) (lastCut : Nat) : IO Unit := do
   let line ← h.getLine
   if line.isEmpty then return ()
-  if line.trimAscii.toString.isEmpty then encodeLoop h out else
+  if line.trimAscii.toString.isEmpty then encodeLoop h out lastCut else
   match Json.parse line with
   | .error e => throw (IO.userError s!"encode: bad json: {e}")
   | .ok j =>
     match j.getObjVal? "msgs" with
-    | .error _ => out.putStrLn j.compress
+    | .error _ =>
+      -- `"cutlen":"last"` in an assert op refers to the cut computed for the preceding parse op
+      let j := match j.getObjVal? "cutlen" with
+        | .ok (.str "last") => j.setObjVal! "cutlen" (Json.num lastCut)
+        | _ => j
+      out.putStrLn j.compress
+      encodeLoop h out lastCut
     | .ok ms =>
       match (fromJson? ms : Except String (List Spec.Msg)) with
       | .error e => throw (IO.userError s!"encode: bad msgs: {e} in {line.take 200}")
       | .ok msgs =>
-        let bytes := msgs.flatMap Spec.enc
-        out.putStrLn (j.setObjVal! "hex" (Json.str (toHex bytes))).compress
-    encodeLoop h out
+        match j.getObjValAs? Nat "cutfrac" with
+        | .error _ =>
+          out.putStrLn (j.setObjVal! "hex" (Json.str (toHex (msgs.flatMap Spec.enc)))).compress
+          encodeLoop h out lastCut
+        | .ok frac =>
+          -- truncation family: all messages but the last complete, the last one cut strictly inside
+          -- (for V9: not on a flowset boundary); the cut point is frac/1000 of the way through
+          let pre := msgs.dropLast.flatMap Spec.enc
+          match msgs.getLast? with
+          | none => throw (IO.userError "encode: cutfrac without msgs")
+          | some last =>
+            let e := Spec.enc last
+            let k0 := 1 + (e.length - 2) * frac / 1000
+            let bs := setBoundaries last
+            let k := if bs.contains k0 then (if k0 + 1 < e.length then k0 + 1 else k0 - 1) else k0
+            let k := if k ≥ e.length then e.length - 1 else k
+            let j := (j.setObjVal! "hex" (Json.str (toHex (pre ++ e.take k)))).setObjVal! "cutlen" (Json.num k)
+            -- the abstract messages no longer describe the bytes
+            let j := j.setObjVal! "msgs_cut" ms
+            let j := Json.mkObj ((j.getObj?.toOption.map (fun o => o.toList.filter (·.1 != "msgs"))).getD [])
+            out.putStrLn j.compress
+            encodeLoop h out k
 
 def main (args : List String) : IO Unit := do
   match args with
-  | ["encode"] => encodeLoop (← IO.getStdin) (← IO.getStdout)
+  | ["encode"] => encodeLoop (← IO.getStdin) (← IO.getStdout) 0
   | _ => loop (← IO.getStdin) (← IO.getStdout) {}
